@@ -11,6 +11,35 @@ class VFS:
     def __init__(self) -> None:
         self.files: dict[str, Any] = {}
         self.opens: list[dict[str, Any]] = []
+        self.clock = 1_700_000_000_000_000_000            # virtual time in ns: every write moves it on
+        self.mtimes: dict[str, int] = {}
+
+    def touch(self, path: str) -> None:
+        self.clock += 1_000_000_000
+        self.mtimes[path] = self.clock
+
+    def put(self, path: str, content: Any) -> None:
+        """Another program replaces the file (content and modification time change)."""
+        self.files[path] = content
+        self.touch(path)
+
+    def stat(self, path: str) -> "StatResult":
+        if path not in self.files:
+            raise AbsRaise(f"FileNotFoundError: [Errno 2] No such file or directory: {path!r}")
+        data = self.files[path]
+        size = len(data.encode("utf8")) if isinstance(data, str) else len(data)
+        return StatResult(self.mtimes.get(path, 1_700_000_000_000_000_000), size, abs(hash(path)) % 10**9)
+
+
+class StatResult(Native):
+    def __init__(self, mtime_ns: int, size: int, ino: int) -> None:
+        self.st_mtime_ns = self.st_ctime_ns = self.st_atime_ns = mtime_ns
+        self.st_mtime = self.st_ctime = self.st_atime = mtime_ns / 1e9
+        self.st_size, self.st_ino, self.st_dev, self.st_mode, self.st_nlink = size, ino, 1, 0o100644, 1
+
+    def __iter__(self) -> Any:
+        return iter((self.st_mode, self.st_ino, self.st_dev, self.st_nlink, 0, 0, self.st_size, int(self.st_atime),
+                     int(self.st_mtime), int(self.st_ctime)))
 
 
 class FileStub(Native):
@@ -18,6 +47,7 @@ class FileStub(Native):
         self.vfs, self.path, self.mode, self.encoding = vfs, path, mode, encoding
         if "w" in mode:
             vfs.files[path] = b"" if "b" in mode else ""
+            vfs.touch(path)
 
     def write(self, data: Any) -> int:
         if "b" in self.mode:
@@ -26,6 +56,7 @@ class FileStub(Native):
         elif not isinstance(data, str):
             raise AbsRaise(f"TypeError: write() argument must be str, not {type(data).__name__}")
         self.vfs.files[self.path] = self.vfs.files[self.path] + data
+        self.vfs.touch(self.path)
         return len(data)
 
     def read(self) -> Any:
@@ -104,6 +135,9 @@ class PathStub(Native):
     def resolve(self, *a: Any, **k: Any) -> "PathStub":
         return self
 
+    def stat(self, *a: Any, **k: Any) -> Any:
+        return self._vfs.stat(self._p)
+
     def absolute(self) -> "PathStub":
         return self
 
@@ -172,6 +206,18 @@ def install_io(it: Interp, vfs: VFS) -> None:
     it.native["json.dump"] = dump
     it.native["json.load"] = load
     it.native["json.loads"] = loads
-    it.native["os.path.abspath"] = lambda p: p
+    it.native["os.path.abspath"] = lambda p: str(p)
+    it.native["os.path.realpath"] = lambda p, **kw: str(p)
+    it.native["os.path.normpath"] = lambda p: str(p)
+    it.native["os.path.normcase"] = lambda p: str(p)
+    it.native["os.path.expanduser"] = lambda p: str(p)
+    it.native["os.path.exists"] = lambda p: str(p) in vfs.files
+    it.native["os.path.isfile"] = lambda p: str(p) in vfs.files
+    it.native["os.path.getmtime"] = lambda p: vfs.stat(str(p)).st_mtime
+    it.native["os.path.getsize"] = lambda p: vfs.stat(str(p)).st_size
+    it.native["os.path.basename"] = lambda p: str(p).rsplit("/", 1)[-1]
+    it.native["os.path.dirname"] = lambda p: str(p).rsplit("/", 1)[0] if "/" in str(p) else ""
+    it.native["os.path.splitext"] = lambda p: __import__("os").path.splitext(str(p))
+    it.native["os.stat"] = lambda p, **kw: vfs.stat(str(p))
     it.native["os.path.join"] = lambda *a: "/".join(x for x in a if x)
     it.native["os.sep"] = "/"
